@@ -533,7 +533,6 @@ func Ite(p, a, b *Term) *Term {
 	return b.Add(d)
 }
 
-
 // feasibleAssign rejects truth assignments that contradict the relations between comparison atoms: two equalities
 // [E = 0], [E + c = 0] (c != 0) cannot both hold; [A < B] and [A = B] cannot both hold; under [E = 0] a comparison
 // whose difference is α·E + β has the value [β > 0].
